@@ -107,12 +107,12 @@ def run(ctx):
     isv = coroutine_of(prog, BOOT + 'initialize_server')
     pem = isv.call_blocks(BOOT + 'prepare_event_management')
     ctx.require(pem, 'R10.2: prepare_event_management call')
-    ctx.ob('R10.2', 'initialize_server|truncate_log -> prepare_event_management', 'truncate_log' in local_field_sources(isv, op_local(isv.term[pem[0]]['args'][2])) or _derives_named(isv, op_local(isv.term[pem[0]]['args'][2]), 'truncate_log'),
+    ctx.ob('R10.2', 'initialize_server|truncate_log -> prepare_event_management', 'truncate_log' in local_field_sources(isv, op_local(isv.term[pem[0]]['args'][2])) or _derives_named(isv, op_local(isv.term[pem[0]]['args'][2]), 'truncate_log', 'core::option::Option<u64>'),
            'prepare_event_management receives truncate_log', isv.loc(pem[0]))
     pev = coroutine_of(prog, BOOT + 'prepare_event_management')
     coa = pev.call_blocks(JW + 'create_or_append')
     ctx.require(coa, 'R10.2: create_or_append call')
-    ctx.ob('R10.2', 'prepare_event_management|truncate_log -> create_or_append', _derives_named(pev, op_local(pev.term[coa[0]]['args'][1]), 'truncate_log'),
+    ctx.ob('R10.2', 'prepare_event_management|truncate_log -> create_or_append', _derives_named(pev, op_local(pev.term[coa[0]]['args'][1]), 'truncate_log', 'core::option::Option<u64>'),
            'create_or_append receives truncate_log', pev.loc(coa[0]))
     cab = prog.body(JW + 'create_or_append')
     sl = cab.call_blocks('std::fs::File::set_len')
@@ -240,10 +240,18 @@ def _src_local(b, st):
     return st['p'][0]
 
 
-def _derives_named(b, l, name):
+def _derives_named(b, l, name, ty=None):
+    """does local l derive from the async-fn parameter `name` (an upvar of the coroutine); falls back to the parameter type when the name is gone"""
     if l is None:
         return False
     targets = set()
+    if ty is not None and name not in b.names:
+        # parameter renamed: identify by type among the locals assigned from upvars
+        for x, ds in b.defs().items():
+            for d in ds:
+                if d[1] == 'a' and d[2]['rv'][0] == 'use' and op_place(d[2]['rv'][1]) and any(isinstance(e, list) and e[0] == 'f' and e[3] == '{upvar}' for e in op_place(d[2]['rv'][1])[1]) and ty in b.locals[x][0]:
+                    targets.add(x)
+        return bool(targets & b.derived_from(l))
     for pl in b.names.get(name, []):
         targets.add(pl[0]) if not pl[1] else None
         if pl[1]:
